@@ -331,6 +331,12 @@ func TestCheck(t *testing.T) {
 	defer r.Write()
 	r.Assumption("the scheduler explores sequentially consistent interleavings at synchronisation operations (locks, channel operations, selects); plain-memory races are not explored")
 
+	if n := vsched.FreeRuns(); n > 0 {
+		for _, c := range concCases() {
+			r.Add("race_pass_runs", int64(vsched.FreeRun(t, concHarness(c), n)))
+		}
+		return
+	}
 	if rep.ReplayPath() != "" {
 		var rp Replay
 		if err := rep.LoadReplay(&rp); err != nil {
